@@ -48,6 +48,15 @@ def _explore(src, with_phases):
     pbar = Opaque("pbar", methods={"update": lambda e, *a: None, "close": lambda e: None})
     eng.extra_globals["tqdm"] = Builtin("tqdm", lambda e, *a, **k: pbar)
     eng.extra_globals["range"] = Builtin("range", lambda e, *a: Opaque("range"))
+    def int_(e, x=0):
+        # the battery model's answers are arbitrary floats: int() of a non-finite one raises (the restoration must survive that too)
+        if is_sym(x) and x.sort != "int":
+            if e.choose(2) == 1:
+                e.event("int-of-non-finite")
+                raise PyRaise("ValueError", "cannot convert float NaN to integer", None, implicit=True)
+            return e.fresh("int_of", "int")
+        return x if is_sym(x) else int(x)
+    eng.extra_globals["int"] = Builtin("int", int_)
     eng.extra_globals["pd"] = Opaque("pd", methods={"DataFrame": lambda e, res: Opaque("DataFrame", attrs={"res": res})})
     keys = Seq(NPH, lambda j: SV(PHN(j), "name"), "phases.keys()") if with_phases else []
     phases = Opaque("phases", methods={"keys": lambda e: keys}, getitem=lambda e, k: SV(DUR(to_z(k)), "real"))
